@@ -25,8 +25,8 @@ EXPLANATION = (
     'the same qualifying helper. Database level: enums, the (reordered) tables and non-inline references, each collection once.')
 RULE_TEXT = 'one obligation per attribute/keyword pair, per filter, per predicate pairing, per table-identifier sink, per note statement, per collection'
 ASSUMPTIONS = ['decides the structural composition of the DDL; the text as a whole and "nothing else appears" are not decided']
-ENGINES = ['pyindex', 'paths', 'strctx']
-TECHNIQUE = 'static analysis (ast): guard/keyword pairing by condition normal forms, complementary-filter and predicate-pairing rules, string-template hole provenance for identifier qualification'
+ENGINES = ['pyindex', 'paths', 'strctx', 'strval', 'effects']
+TECHNIQUE = 'static analysis (ast): guard/keyword pairing by condition normal forms, complementary-filter and predicate-pairing rules, string-template hole provenance for identifier qualification; abstract string evaluation against the SQL statement forms; constructor dataflow for note ownership'
 
 SQLD = 'pydbml.renderer.sql.default'
 
